@@ -227,11 +227,62 @@ def emptied_history(ctx):
         ctx.oracle_fail("history raised %s: %s" % (type(e).__name__, str(e)[:80]), desc, cls="C05-raises")
 
 
+def far_common_inferred_shape(ctx):
+    """a dimension re-expressed with a common value NO row holds and that lies well above every category (max + 2, max + 5),
+    the cube left to INFER its shape: the result covers more categories, the cells the unshifted cube has are the same and the
+    additional ones are missing"""
+    from catii import ccube
+    for rep in range(ctx.n(4)):
+        case = A.gen_case(ctx.rng, multi_axis=(rep % 2 == 1), k=ctx.rng.choice([1, 2]), N=ctx.rng.choice([5, 9]))
+        dense, commons = case["dense"], case["commons"]
+        idxs = [G.make_index(d, c) for d, c in zip(dense, commons)]
+        for a, (d, ix) in enumerate(zip(dense, idxs)):
+            if len(ix.shape) > 2:
+                continue
+            top = int(max([int(v) for v in np.unique(d).tolist()] + [int(ix.common)]))
+            for v in (top + 2, top + 5):
+                for func in A.FUNCS:
+                    desc = A.small_desc(case, {"func": func, "dim": a, "v": v, "shape": "inferred"})
+                    ctx.case(desc, nontrivial=case["N"] > 0)
+                    ctx.hit("far_common_inferred_shape")
+                    try:
+                        bv, bm = A.call(ccube(idxs), func, case, ("pair", 0))
+                    except Exception as e:
+                        ctx.hit("far_common_baseline_raised:" + type(e).__name__)
+                        continue
+                    try:
+                        sh = ix.copy()
+                        sh.shift_common(v)
+                        dims2 = list(idxs)
+                        dims2[a] = sh
+                        sv, sm = A.call(ccube(dims2), func, case, ("pair", 0))
+                    except Exception as e:
+                        ctx.oracle_fail("ccube.%s with an inferred shape raised %s: %s after dimension %d was re-expressed with the unused "
+                                        "common value %d" % (func, type(e).__name__, str(e)[:60], a, v), desc, cls="C05-raises")
+                        continue
+                    sv, sm, bv, bm = np.asarray(sv), np.asarray(sm), np.asarray(bv), np.asarray(bm)
+                    if sv.ndim != bv.ndim or any(x < y for x, y in zip(sv.shape, bv.shape)):
+                        ctx.oracle_fail("%s: shape %s after re-expressing dimension %d with common %d, %s before" % (func, sv.shape, a, v, bv.shape),
+                                        desc, cls="C05-differs")
+                        continue
+                    inner = tuple(slice(0, n) for n in bv.shape)
+                    same_missing = np.array_equal(sm[inner], bm)
+                    vals_ok = same_missing and (np.all(np.abs(sv[inner][~bm] - bv[~bm]) <= 1e-9 * A.grand_total(case, func)) if case["general"]
+                                                else np.array_equal(sv[inner][~bm], bv[~bm]))
+                    outer = np.ones(sv.shape, dtype=bool)
+                    outer[inner] = False
+                    if not same_missing or not vals_ok or not np.all(sm[outer]):
+                        ctx.oracle_fail("%s (inferred shape): after dimension %d was re-expressed with the unused common value %d the cells "
+                                        "differ (%s)" % (func, a, v, "missing set" if not same_missing else "values" if not vals_ok else
+                                                         "a cell outside the data is reported"), desc, cls="C05-differs")
+
+
 def run(ctx):
     core.load_catii()
     reqs, pend = [], []
     for _ in range(ctx.n(40)):
         emptied_history(ctx)
+    far_common_inferred_shape(ctx)
     for it in range(ctx.n(14)):
         case = A.gen_case(ctx.rng, multi_axis=ctx.rng.random() < 0.3, k=ctx.rng.choice([1, 2, 2, 3]),
                           N=ctx.rng.choice([0, 1, 3, 5, 9]), general=(it % 4 == 3))
